@@ -26,4 +26,4 @@ For each change k in {{{k0},{k0+1}}} deliver, under {wt}/SEED/k/:
   - a demonstration: a new Go test file (say which package directory it goes in; name it zz_seed_demo_test.go) or small program that FAILS with the change applied and PASSES without it;
   - meta.json : {{"property": "{pid}", "summary": "...what was changed...", "needs_to_manifest": "...the specific input/sequence/interleaving...", "demo_location": "<package dir for the test file>", "commands_run": [...], "observed": "...outputs showing demo fails with and passes without the change, and that the existing suite passes with the change..."}}
 
-Verify everything yourself by actually running it: (a) the existing suite passes with the change, (b) the demo fails with the change, (c) the demo passes on the clean tree. When done, restore the worktree to a clean checkout of the source files (git checkout -- . ; remove demo files from package directories), leaving only the SEED/ directory, and delete any build output you created. Report in your final message a one-paragraph summary per change.""")
+Verify everything yourself by actually running it: (a) the existing suite passes with the change, (b) the demo fails with the change, (c) the demo passes on the clean tree. When done, restore the worktree to a clean checkout of the source files (git checkout -- . ; remove demo files from package directories), leaving only the SEED/ directory, and delete any build output you created inside the worktree (do NOT run `go clean -cache` or remove anything under ~/.cache: the Go build cache is shared with other jobs). Report in your final message a one-paragraph summary per change.""")
